@@ -12,9 +12,8 @@ use compio_buf::{
 };
 use verif_harness::*;
 
-/// payload of the trap that stands for silent UB (SmallVec::set_len beyond the
-/// capacity has no check at all); reported like the Vec abort: `2 4`
-struct UbTrap;
+// `UbTrap` (node module): also raised for SmallVec::set_len beyond the capacity, which has no
+// check at all (silent UB); reported like the Vec abort: `2 4`
 
 struct Sv(smallvec::SmallVec<[u8; 4]>);
 impl IoBuf for Sv {
@@ -26,6 +25,20 @@ impl IoBufMut for Sv {
     fn as_uninit(&mut self) -> &mut [MaybeUninit<u8>] {
         self.0.as_uninit()
     }
+
+    fn reserve(&mut self, len: usize) -> Result<(), compio_buf::ReserveError> {
+        IoBufMut::reserve(&mut self.0, len)
+    }
+}
+impl AsRef<[u8]> for Sv {
+    fn as_ref(&self) -> &[u8] {
+        &self.0
+    }
+}
+impl AsMut<[u8]> for Sv {
+    fn as_mut(&mut self) -> &mut [u8] {
+        &mut self.0
+    }
 }
 impl SetLen for Sv {
     unsafe fn set_len(&mut self, len: usize) {
@@ -36,14 +49,49 @@ impl SetLen for Sv {
     }
 }
 
+/// the concrete root types: compio-buf's traits plus the type's own immutable / mutable
+/// view of its initialised bytes (as_slice / as_mut_slice, Deref / DerefMut)
+trait RootBuf: IoBufMut {
+    fn views(&mut self) -> [(usize, usize); 2];
+    fn bump(&mut self);
+}
+impl<T: IoBufMut + AsRef<[u8]> + AsMut<[u8]>> RootBuf for T {
+    fn views(&mut self) -> [(usize, usize); 2] {
+        let a = {
+            let s: &[u8] = (*self).as_ref();
+            (s.as_ptr() as usize, s.len())
+        };
+        let b = {
+            let s: &mut [u8] = (*self).as_mut();
+            (s.as_mut_ptr() as usize, s.len())
+        };
+        [a, b]
+    }
+    fn bump(&mut self) {
+        for b in (*self).as_mut().iter_mut() {
+            *b = b.wrapping_add(1);
+        }
+    }
+}
+
 /// a root buffer: any of the real buffer types behind compio's `Box<B>` impls
-type M = Box<dyn IoBufMut>;
+type M = Box<dyn RootBuf>;
 
 #[path = "../c10_node.rs"]
 mod node;
-use node::{Node, RootCap, decode_bsteps, pat, run_bsteps};
+use node::{Node, RootCap, UbTrap, decode_bsteps, pat, run_bsteps};
 
-impl RootCap for M {}
+impl RootCap for M {
+    fn alloc_len(&mut self) -> usize {
+        (**self).as_uninit().len()
+    }
+    fn deref_views(&mut self) -> [(usize, usize); 2] {
+        (**self).views()
+    }
+    fn bump_deref_mut(&mut self) {
+        (**self).bump()
+    }
+}
 
 fn arr<const N: usize>(_len: usize) -> M {
     let mut a = [0u8; N];
@@ -142,9 +190,8 @@ fn run_buffer(c: &mut Case) -> Result<Vec<u64>, BadCase> {
     }
     let steps = decode_bsteps(c)?;
     let mut root = mk_root(kind, len, cap)?;
-    let base = base_of(&mut root);
     let mut out = Vec::new();
-    let mut root = run_bsteps(&mut out, root, base, steps);
+    let mut root = run_bsteps(&mut out, root, steps);
     enc_root(&mut out, &mut root);
     Ok(out)
 }
@@ -356,7 +403,7 @@ fn run_vectored(c: &mut Case) -> Result<Vec<u64>, BadCase> {
     for _ in 0..ns {
         let code = c.take()?;
         let a = c.take()? as usize;
-        if code > 12 {
+        if code > 13 {
             return Err(BadCase);
         }
         steps.push((code, a));
@@ -366,9 +413,11 @@ fn run_vectored(c: &mut Case) -> Result<Vec<u64>, BadCase> {
     }
     let mut ms = Vec::new();
     let mut bases = Vec::new();
+    let mut caps = Vec::new();
     for (k, l, cp) in specs {
         let mut m = mk_root(k, l, cp)?;
         bases.push(base_of(&mut m));
+        caps.push(cp);
         ms.push(m);
     }
     let mut out = Vec::new();
@@ -437,6 +486,20 @@ fn run_vectored(c: &mut Case) -> Result<Vec<u64>, BadCase> {
             (Mode::I(n, m), 10) => Mode::I(n.wrap_slice(a, None), m),
             (Mode::I(n, m), 11) => Mode::I(n.wrap_uninit(), m),
             (Mode::I(n, m), 12) => Mode::I(n.wrap_slice(0, Some(a)), m),
+            (Mode::I(mut n, m), 13) => {
+                let chunk: Vec<u8> = (0..a).map(|i| pat(j, i)).collect();
+                let end = bases[m] + caps[m];
+                let res = n.pre_extend(a, &|_| end, &|_| {});
+                let real = match n.extend_from_slice(&chunk) {
+                    Ok(()) => 0,
+                    Err(e) if e.is_not_supported() => 1,
+                    Err(_) => 2,
+                };
+                assert_eq!(res, real, "reserve and extend_from_slice disagree");
+                out.push(real);
+                j += 1;
+                Mode::I(n, m)
+            }
             _ => return Err(BadCase),
         };
         match &mut mode {
